@@ -58,6 +58,15 @@ OverrideCasesOf(fam) ==
         E \in SUBSET Names(fam), m \in Methods, k \in ArgKinds, p \in PassKinds}
 OverrideCases == UNION {OverrideCasesOf(fam) : fam \in Families}
 
+(* integer-typed explicit values (python int, numpy int64 / int32 scalar, integer array, all  *)
+(* >= 2): every single name and all names at once, every method, keyword and positional.      *)
+(* The instance it is compared with is constructed with the same integer objects.             *)
+IntKinds == {"pyint", "int64", "int32", "intarray"}
+IntOverrideCasesOf(fam) ==
+    {<<fam, AsSeq(fam, E), m, vk, p>> :
+        E \in {{n} : n \in Names(fam)} \cup {Names(fam)}, m \in Methods, vk \in IntKinds, p \in PassKinds}
+IntOverrideCases == UNION {IntOverrideCasesOf(fam) : fam \in Families}
+
 ----------------------------------------------------------------------------
 (* C08: conditional distributions                                             *)
 
